@@ -63,8 +63,17 @@ def begins_like_none(data):
     return True
 
 
+def ghw_header_ok(data):
+    """the 16-byte GHW header as GHDL writes it: magic, header length 16, a zero, version 0 or 1, endianness 1 (little)
+    or 2 (big), word length, offset length, a zero"""
+    return (len(data) >= 16 and data[:9] == b"GHDLwave\n" and data[9] == 16 and data[10] == 0 and data[11] <= 1
+            and data[12] in (1, 2) and data[15] == 0)
+
+
 def oracle_for(data, expect_fmt=None):
     klass = fst_walk_class(data)
+    if expect_fmt is None and ghw_header_ok(data):
+        expect_fmt = "ghw"
     vcd_like = data.lstrip(b" \t\r\n")[:1] == b"$"
 
     def pred(obs):
@@ -143,6 +152,14 @@ def run(res, rng, tier, model_ok, replay=None):
             for pre in (b"", b" ", b"\n\t "):
                 for post in (b"", b" ", b" $end", b" x $end ", b" $en", b"$end", b" $$end", b" x $end\n$var"):
                     add(pre + b"$" + w + post, "dollar-word")
+        # `$`-words that are no VCD command, of every length around the implementation's message limits, holding
+        # multi-byte UTF-8 characters and invalid UTF-8 at every offset
+        for ln in list(range(0, 72)) + [100, 127, 128, 129, 255, 256, 257, 1000]:
+            for filler in (b"a", "\u00e4".encode(), "\u20ac".encode(), b"\xff", b"\xf0\x9f"):
+                for k in range(len(filler)):
+                    body = (b"q" * k + filler * (ln // len(filler) + 1))[:max(ln, 1)]
+                    for post in (b"", b" $end", b" x $end\n"):
+                        add(b"$" + body + post, "dollar-long-word")
         for k in range(len(GHW_OK) + 1):
             add(GHW_OK[:k], "ghw-magic")
         for k in range(len(GHW_OK)):
